@@ -37,6 +37,7 @@ func init() {
 		FloorQuick:  5000,
 		FloorThor:   20000,
 		Run:         runC11,
+		Post:        func(d *core.DriveState) { fuzzStage(d, []string{"FuzzXMLEncDecrypt"}, 400000) },
 		LevelText:   "Every length of cipher value up to 4 blocks+1 is enumerated for every algorithm, every GCM byte is tampered, and a grammar of structural mutations and key types is driven through the real Decrypt and the SP's pre-authentication decrypt path under a panic sentinel; must-reject classes (GCM tamper, zero padding, unaligned/short CBC, certificate mismatch) are judged by construction of the input. Held-on-observed.",
 		LevelNote:   "Trusts Go crypto and internal/refenc for producing valid bases; recover() sees ordinary panics, process-fatal errors are attributed through the per-case journal.",
 		Technique:   "runtime monitoring: panic sentinel + must-reject oracle over exhaustive length lattice and structure-aware mutants",
